@@ -26,8 +26,9 @@ Record cfg := {
   bsize  : N;      (* aligned block size of the bin *)
   cap    : N;      (* arena size in bytes *)
   bump0  : N;      (* first offset handed out: 8 / 0 *)
-  lfkind : bool    (* true: lockfree_pool.rs (bump advances before the capacity check);
-                      false: five_level_pool.rs (capacity check first, under the mutex) *)
+  lfkind : bool    (* true: lockfree_pool.rs (bump offset advanced by load + compare-exchange,
+                      only when the block fits); false: five_level_pool.rs (check and advance
+                      in one step under the memory mutex) *)
 }.
 
 Definition cfg_lockfree (size capacity : N) : cfg :=
@@ -51,7 +52,8 @@ Inductive pcT :=
 | PopLoaded (h g : N)           (* before the read of the link word of h *)
 | PopRead (h g n : N)           (* before compare_exchange (h,g) -> (n,g+1) *)
 | PopWon (h : N)                (* before count.fetch_sub *)
-| PopEmpty                      (* before the bump allocation *)
+| PopEmpty                      (* before the bump allocation (lockfree: before next_offset.load) *)
+| PopBump (cur : N)             (* lockfree: before compare_exchange cur -> cur + size on next_offset *)
 | PushStart (b : N)             (* before head.load *)
 | PushLoaded (b h g : N)        (* before the write of the link word of b *)
 | PushWritten (b h g : N)       (* before compare_exchange (h,g) -> (b,g+1) *)
@@ -88,6 +90,9 @@ Definition init (nthreads : nat) (c : cfg) : state :=
   {| head := tail c; gen := 0; nxt := fun _ => 0; count := 0; bump := bump0 c;
      thr := repeat {| pc := Idle; held := [] |} nthreads; fl := []; ncas := 0 |}.
 
+(* end <= memory_size && end <= u32::MAX *)
+Definition fits (c : cfg) (b : N) : bool := (b + bsize c <=? cap c) && (b + bsize c <=? W32 - 1).
+
 (* the value the hook reports after head.load *)
 Definition pack (c : cfg) (h g : N) : N := if gmod c =? 1 then h else g * W32 + h.
 
@@ -96,8 +101,8 @@ Definition set_thr (s : state) (t : nat) (x : local) : state :=
      thr := upd_thr (thr s) t x; fl := fl s; ncas := ncas s |}.
 
 (* One step of thread t.  Returns the new state and the observations (site, value)
-   the hooks report during it.  Sites: 1 load, 2 link read, 3 cas, 5 bump for pop;
-   11 load, 13 cas for push. *)
+   the hooks report during it.  Sites: 1 load, 2 link read, 3 cas, 5 bump (load), 6 bump
+   compare-exchange for pop; 11 load, 13 cas for push. *)
 Definition step (c : cfg) (s : state) (t : nat) (k : cmd) : state * list (N * N) :=
   match nth_error (thr s) t with
   | None => (s, [])
@@ -135,18 +140,28 @@ Definition step (c : cfg) (s : state) (t : nat) (k : cmd) : state * list (N * N)
             bump := bump s; thr := upd_thr (thr s) t {| pc := Idle; held := held l ++ [h] |};
             fl := fl s; ncas := ncas s |}, [])
     | PopEmpty =>
-        if cap c <? bump s + bsize c
-        then (* out of memory *)
-          if lfkind c
-          then ({| head := head s; gen := gen s; nxt := nxt s; count := count s;
+        if lfkind c
+        then (* allocate_new_block: load the offset, give up if the block does not fit *)
+          if fits c (bump s)
+          then (set_thr s t {| pc := PopBump (bump s); held := held l |}, [(5, bump s)])
+          else (set_thr s t {| pc := Idle; held := held l |}, [(5, bump s)])
+        else
+          if cap c <? bump s + bsize c
+          then (set_thr s t {| pc := Idle; held := held l |}, [])
+          else ({| head := head s; gen := gen s; nxt := nxt s; count := count s;
                    bump := bump s + bsize c;
-                   thr := upd_thr (thr s) t {| pc := Idle; held := held l |};
+                   thr := upd_thr (thr s) t {| pc := Idle; held := held l ++ [bump s] |};
                    fl := fl s; ncas := ncas s |}, [(5, bump s)])
-          else (set_thr s t {| pc := Idle; held := held l |}, [])
-        else ({| head := head s; gen := gen s; nxt := nxt s; count := count s;
-                 bump := bump s + bsize c;
-                 thr := upd_thr (thr s) t {| pc := Idle; held := held l ++ [bump s] |};
-                 fl := fl s; ncas := ncas s |}, [(5, bump s)])
+    | PopBump cur =>
+        if bump s =? cur
+        then ({| head := head s; gen := gen s; nxt := nxt s; count := count s;
+                 bump := cur + bsize c;
+                 thr := upd_thr (thr s) t {| pc := Idle; held := held l ++ [cur] |};
+                 fl := fl s; ncas := ncas s |}, [(6, 1)])
+        else (* Err(actual): continue with the value the exchange returned *)
+          if fits c (bump s)
+          then (set_thr s t {| pc := PopBump (bump s); held := held l |}, [(6, 0)])
+          else (set_thr s t {| pc := Idle; held := held l |}, [(6, 0)])
     | PushStart b =>
         (set_thr s t {| pc := PushLoaded b (head s) (gen s); held := held l |},
          [(11, pack c (head s) (gen s))])
